@@ -213,6 +213,24 @@ class PathView:
             lines.append('%s  %s' % (short_site(site), abbreviate(PF(f))[:220]))
         return lines
 
+def _split_erf(pol):
+    """pol == rest - round0(F * div(N, Q)): returns {'rest','N','Q','F'} or None"""
+    hit = None
+    for mono, c in pol.m.items():
+        if len(mono) == 1 and isinstance(mono[0], tuple) and mono[0] and mono[0][0] == 'polyatom' and mono[0][1] == 'round' and c == -1:
+            if hit is not None: return None
+            hit = mono[0]
+    if hit is None: return None
+    inner = hit[2][0]
+    if len(inner.m) != 1: return None
+    (mono, c), = inner.m.items()
+    if c != 1 or len(mono) != 2: return None
+    dv = [a for a in mono if isinstance(a, tuple) and a and a[0] == 'polyatom' and a[1] == 'div']
+    other = [a for a in mono if not (isinstance(a, tuple) and a and a[0] == 'polyatom')]
+    if len(dv) != 1 or len(other) != 1: return None
+    rest = Poly({m2: v for m2, v in pol.m.items() if m2 != (hit,)})
+    return {'rest': rest, 'N': dv[0][2][0], 'Q': dv[0][2][1], 'F': other[0]}
+
 def const_truth(pred):
     """truth value of an eq/lt predicate when the polynomial difference of its sides is a constant, else None"""
     if pred[0] == 'eq':
@@ -242,6 +260,22 @@ def infeasible_reason(p):
             d = poly(f[1][2][0]) - poly(f[1][2][1])
             if d.is_const() and d.m.get((), 0) >= 0:
                 return 'fold: checked_sub(%s) cannot fail' % P(f[1][2][0])[:60]
+    # L-mono: x -> R - round0(F * x / Q) is non-increasing in x; so with N1 > N2 (or equal):  R - ERF(N1) > 0  implies  R - ERF(N2) > 0
+    pro = []
+    for f, site, _ in facts:
+        if f[0] == 'val' and isinstance(f[2], bool) and f[1][0] == 'lt' and f[1][1] == ('int', 0):
+            d = _split_erf(poly(f[1][2]))
+            if d is not None: pro.append((d, f[2]))
+    if len(pro) >= 2:
+        positives = []
+        for f, site, _ in facts:
+            if f[0] == 'val' and f[2] is True and f[1][0] == 'lt' and f[1][1] == ('int', 0): positives.append(poly(f[1][2]))
+        for (d1, v1) in pro:
+            for (d2, v2) in pro:
+                if v1 is True and v2 is False and d1['rest'] == d2['rest'] and d1['Q'] == d2['Q'] and d1['F'] == d2['F']:
+                    diff = d1['N'] - d2['N']
+                    if diff.is_zero() or any(diff == pp for pp in positives):
+                        return 'L-mono: the pro-rata fee due grows with the quote consumed, so fee(g1) > 0 and fee(g2) = 0 with g2 >= g1 is impossible'
     # L-pos: exec < bid, size >= 1, both products integral  =>  bid*size - exec*size >= 1
     for f, site, _ in facts:
         if f[0] == 'val' and f[2] is False and f[1][0] == 'lt' and f[1][1] == ('int', 0):
